@@ -4,7 +4,7 @@
    and of the net_if_addrs() post-processing), documented contract: C20/Spec.v, generated
    tables (slot maps, probed slot usage, probed ladders, exposed names, front-end rows of the
    CURRENT code): Gen/C20_Tables.v, decidable checks: C20/Check.v. *)
-From PV Require Import C20.Check C20.ProofsModel C20.Proofs C20.ProofsFront.
+From PV Require Import C20.Check C20.ProofsModel C20.Proofs C20.ProofsFront C20.Loop C20.ProofsLoop.
 From PV Require Import Gen.C20_Tables.
 
 (* the model of the five ladders + method handlers: for EVERY platform, method name, failing
@@ -312,3 +312,41 @@ Theorem C20_frontend_mac : forall p os, let sep := match p with Windows => 45 | 
   = spec_mac sep os.
 Proof. exact frontend_mac. Qed.
 Print Assumptions C20_frontend_mac.
+
+(* ---- wave 8: list-then-read loops of the Solaris layer (threads / open_files / memory_maps): the method lists the
+   items, reads them one by one tolerating ENOENT of an item, and ends with the liveness probe os.stat(<procfs>/<pid>)
+   when an item had vanished.  For EVERY list of per-item outcomes (no bound on its length), every answer of the
+   liveness probe, process state and pid (PID 0 not listed = the known class, excluded): the outcome is among what the
+   property demands -- the translation of the first failure that is not a vanished item; else, if an item vanished AND
+   the probe fails, the translation of the probe's error; else the read items in listing order. *)
+Theorem C20_loop_model : forall m outs stat s z,
+  outs_ok outs = true -> stat_ok stat = true -> z && negb (listed s) = false ->
+  In (loop_outcome m outs stat s z) (loop_allowed m outs stat s z).
+Proof. exact loop_model. Qed.
+Print Assumptions C20_loop_model.
+
+(* the process died in mid-loop (k items read, a later one gone, <procfs>/<pid> gone too): NoSuchProcess, or
+   ZombieProcess while the PID is still listed -- for every outcome list without another kind of failure *)
+Theorem C20_loop_dies_midloop : forall m outs e s,
+  first_hard outs = None -> existsb item_gone outs = true -> (e = ENOENT \/ e = ESRCH) ->
+  loop_outcome m outs (Some e) s false = LExc (if listed s then RZombie else RNoSuch).
+Proof. exact loop_dies_midloop. Qed.
+Print Assumptions C20_loop_dies_midloop.
+
+(* ... and never the half-read list, whatever the liveness probe fails with *)
+Theorem C20_loop_no_partial_list : forall m outs e s z l,
+  first_hard outs = None -> existsb item_gone outs = true -> loop_outcome m outs (Some e) s z <> LList l.
+Proof. exact loop_no_partial_list. Qed.
+Print Assumptions C20_loop_no_partial_list.
+
+(* the process is alive: the items that could be read, in listing order, without the vanished ones *)
+Theorem C20_loop_alive_partial : forall m outs s z,
+  first_hard outs = None -> loop_outcome m outs None s z = LList (kept m 0 outs).
+Proof. exact loop_alive_partial. Qed.
+Print Assumptions C20_loop_alive_partial.
+
+(* a per-item failure other than a vanished item ends the method with its translation, whatever follows it *)
+Theorem C20_loop_hard_failure : forall m outs stat s z e,
+  first_hard outs = Some e -> loop_outcome m outs stat s z = LExc (wrap SunOS (Build_cond e s z)).
+Proof. exact loop_hard_failure. Qed.
+Print Assumptions C20_loop_hard_failure.
